@@ -733,12 +733,12 @@ pub fn main(args: &[String]) {
             // groups of one and two members (a rewrite that adds a definition turns them into the larger ones), also bound to a name
             // and applied: the type computed for the group is then USED
             let mut small: Vec<String> = vec![];
-            for outer in ["(A : type) => (v : A) => ", "(A : type) => (B : type) => (v : A) => "] {
+            for outer in ["(A : type) => (v : A) => ", "(A : type) => (B : type) => (v : A) => ", "(B : type) => (A : type) => (v : A) => "] {
                 for defs in ["g2 : type = A", "g1 : type = int; g2 : type = A", "g2 : type = A; g1 : type = int", "g2 : type = A; g4 : type = g2"] {
                     for b in ["(z : g2) => z", "((z : g2) => z) v", "(p : int) => ((z : g2) => z) v", "((z : g2) => (w : g2) => z) v"] {
                         small.push(format!("{outer}({defs}; {b})"));
-                        small.push(format!("pick = {outer}({defs}; {b})\n{}", if outer.contains("B :") { "pick int bool 3" } else { "pick int 3" }));
-                        small.push(format!("pick = {outer}({defs}; {b})\n{}", if outer.contains("B :") { "pick bool int true" } else { "pick bool true" }));
+                        small.push(format!("pick = {outer}({defs}; {b})\n{}", if outer.starts_with("(B") { "pick bool int 3" } else if outer.contains("B :") { "pick int bool 3" } else { "pick int 3" }));
+                        small.push(format!("pick = {outer}({defs}; {b})\n{}", if outer.starts_with("(B") { "pick int bool true" } else if outer.contains("B :") { "pick bool int true" } else { "pick bool true" }));
                     }
                 }
             }
